@@ -70,7 +70,7 @@ class IOFaults:
             return self._real_open(file, *a, **k)
         self.opens.append(rel)
         d = self.d
-        if d is None or self.fired:
+        if d is None or d.get("what") == "none" or (self.fired and not d.get("every")):
             return self._real_open(file, *a, **k)
         n = len(self.opens)
         self._occ[rel] = self._occ.get(rel, 0) + 1
@@ -78,7 +78,8 @@ class IOFaults:
         if "nth" in d:
             hit = (n == int(d["nth"]))
         elif "path" in d:
-            hit = (rel == os.path.normpath(d["path"]) and self._occ[rel] == int(d.get("occurrence", 1)))
+            hit = (rel == os.path.normpath(d["path"]) and
+                   (d.get("every") or self._occ[rel] == int(d.get("occurrence", 1))))
         if not hit:
             return self._real_open(file, *a, **k)
         self.fired = True
